@@ -268,6 +268,30 @@ func padObligations(p *Program, r *Report, rule string, fns []*ssa.Function) int
 						if staticCalleeIs(&x.Call, "(*math/big.Int).FillBytes") {
 							continue
 						}
+						// make+copy idiom (benign round 4, C04-y3): buf := make([]byte, 32); copy(buf[32−len(v):], v) — the value
+						// lands right-aligned in a zeroed 32-byte buffer
+						if isBuiltin(&x.Call, "copy") && len(x.Call.Args) == 2 && flowsFrom(x.Call.Args[1], c) {
+							if dsl, ok := x.Call.Args[0].(*ssa.Slice); ok && dsl.Low != nil && dsl.High == nil {
+								is32 := false
+								if ms, ok := dsl.X.(*ssa.MakeSlice); ok {
+									if k, ok := constInt(ms.Len); ok && k == 32 {
+										is32 = true
+									}
+								}
+								// go/ssa turns make([]byte, 32) into new [32]byte sliced whole
+								if ws, ok := dsl.X.(*ssa.Slice); ok && ws.Low == nil && (ws.High == nil || func() bool { k, isK := constInt(ws.High); return isK && k == 32 }()) {
+									if al, ok := ws.X.(*ssa.Alloc); ok {
+										if at, ok := derefType(al.Type()).Underlying().(*types.Array); ok && at.Len() == 32 {
+											is32 = true
+										}
+									}
+								}
+								if is32 && linEq(lc.Lin(dsl.Low), constLin(32).add(lc.LenLin(c), -1)) {
+									okUses++
+									continue
+								}
+							}
+						}
 						bad = "passed unpadded to " + calleeShort(&x.Call) + " (" + p.Pos(x.Pos()) + ")"
 					case *ssa.Slice, *ssa.IndexAddr, *ssa.Store, *ssa.Return, *ssa.MakeInterface:
 						bad = "used unpadded (" + p.Pos(u.Pos()) + ")"
@@ -554,6 +578,7 @@ func checkC04(p *Program, r *Report) {
 		type st struct {
 			b          *ssa.BasicBlock
 			hard, priv int8 // 0 unknown, 1 true, 2 false
+			from       *ssa.BasicBlock // the predecessor this state arrived from (to resolve a bool φ condition)
 		}
 		seen := map[st]bool{}
 		var bad *ssa.BasicBlock
@@ -571,11 +596,27 @@ func checkC04(p *Program, r *Report) {
 			iff, isIf := lastInstr(s.b).(*ssa.If)
 			if !isIf {
 				for _, nx := range s.b.Succs {
-					walk(st{nx, s.hard, s.priv})
+					walk(st{nx, s.hard, s.priv, s.b})
 				}
 				return
 			}
 			v, neg := iff.Cond, false
+			// `case hardened && !k.isPrivate:` of a tagless switch is a bool φ (benign round 4, C04-y2): on the edge this
+			// state arrived by, the condition is that edge's value — a constant decides the branch outright
+			only := -1
+			if ph, isPhi := v.(*ssa.Phi); isPhi && ph.Block() == s.b && s.from != nil {
+				for i, pb := range s.b.Preds {
+					if pb == s.from {
+						v = ph.Edges[i]
+					}
+				}
+				if kb, isK := constBool(v); isK {
+					only = 1
+					if kb {
+						only = 0
+					}
+				}
+			}
 			for {
 				if u, ok := v.(*ssa.UnOp); ok && u.Op == token.NOT {
 					v, neg = u.X, !neg
@@ -584,8 +625,11 @@ func checkC04(p *Program, r *Report) {
 				break
 			}
 			for k, nx := range s.b.Succs {
+				if only >= 0 && k != only {
+					continue
+				}
 				truth := (k == 0) != neg // truth of v on this edge
-				ns := st{nx, s.hard, s.priv}
+				ns := st{nx, s.hard, s.priv, s.b}
 				if isT, whenTrue := hardTruth(v); isT {
 					nHard++
 					h := int8(2)
@@ -609,7 +653,7 @@ func checkC04(p *Program, r *Report) {
 				walk(ns)
 			}
 		}
-		walk(st{child.Blocks[0], 0, 0})
+		walk(st{child.Blocks[0], 0, 0, nil})
 		if nHard == 0 {
 			r.Unresolved("C04.guards", "test of the child index against 2^31 in Child")
 		} else {
